@@ -12,6 +12,11 @@ TARGET_TEMPLATES = ["@@ = 1\n", "for @@ in x: pass\n", "with a as @@: pass\n", "
                     "with a as b, c as @@: pass\n", "for @@ in a:\n    pass\nelse:\n    pass\n"]
 
 
+FIXED_TEMPLATES = ["x = p and @@\n", "x = @@ and q\n", "x = p or @@\n", "x = @@ or q\n", "if ready and @@:\n    pass\n", "[i for i in s if i and @@]\n", "x = not @@\n",
+                   "open(@@, 'rb')\n", "@@ / 'data.txt'\n", "x = @@\nmode = 'w'\n", "def g(p=@@, enc='utf8'): pass\n", "x = [@@, 'a', f'{b}', 'c']\n", "y = @@ if 's' else 't'\n",
+                   "print('a', @@, 'b')\n", "x = {'k': @@, 'l': 'm'}\n", "f(@@)('s')\n", "x = @@, 'tail'\n"]
+
+
 def tokens_of(text):
     X = repo().real
     T = X.tokenize.Token
@@ -152,7 +157,7 @@ def main():
         chk.run(f"B-context p={p} s={s}", b_context(p, s), f"{p} symbolic tokens before and {s} after the hole over Sigma x {len(KEYS)} constructs",
                 wall=200 if chk.quick else 2400, vacuity=("expression-hole",))
     py, xs, lits = seeds.all_seeds()
-    tm = seed_templates(py if not chk.quick else seeds.sample(chk.rng, py, 60), chk.rng, 0 if not chk.quick else 2)
+    tm = FIXED_TEMPLATES + seed_templates(py if not chk.quick else seeds.sample(chk.rng, py, 60), chk.rng, 0 if not chk.quick else 2)
     chk.extra["seed_templates"] = len(tm)
     chk.run("A-seed contexts", a_templates(tm), f"{len(tm)} NAME positions of seed programs x {len(KEYS)} constructs", wall=150 if chk.quick else 1800,
             vacuity=("expression-hole",))
